@@ -55,11 +55,18 @@ def same_outcome(a: Outcome, b: Outcome):
 
 def build_type(ty, rng=None):
     """Build the Python type; returns (obj, None) or (None, exception)."""
-    from .tyast import build
+    from .tyast import build, conforms
     try:
-        return build(ty, rng), None
+        obj = build(ty, rng)
     except Exception as e:
         return None, e
+    if not conforms(ty, obj):
+        return None, TypingCacheReordered("typing handed back an equal-but-reordered alias (Union member order lost)")
+    return obj, None
+
+
+class TypingCacheReordered(Exception):
+    pass
 
 
 def escape_site(exc):
